@@ -167,7 +167,7 @@ pub fn build(c: &MetaCase) -> (Vec<u8>, Option<Vec<u8>>) {
     }
     use crate::refmp4::frag::*;
     let o = crate::props::c09::all_opts()[0];
-    let fm = LFragMovie { movie_ts: 1000, tracks: vec![LFragTrack { id: 1, codec: Codec::Avc, timescale: 1000, trex_default_duration: 9 }], fragments: vec![vec![crate::props::c09::mk_run(1, &o, 2, 0)]], mehd: None, large_moof: false, offsets_only: false };
+    let fm = LFragMovie { movie_ts: 1000, tracks: vec![LFragTrack { id: 1, codec: Codec::Avc, timescale: 1000, trex_default_duration: 9 }], fragments: vec![vec![crate::props::c09::mk_run(1, &o, 2, 0)]], mehd: None, large_moof: false, offsets_only: false, fillers: 0 };
     let mut init = init_nodes(&fm);
     init[1].children_mut().unwrap().extend(extra);
     let (media, _) = media_nodes(&fm);
@@ -285,6 +285,11 @@ pub fn run(tier: Tier, seed: u64) -> i32 {
         Some(YearEnc::Text("7".into())),
         Some(YearEnc::Text("2024".into())),
         Some(YearEnc::Text("4294967295".into())),
+        // decimal text whose value does not fit the 32-bit answer: no year (never a wrapped value)
+        Some(YearEnc::Text("4294967296".into())),
+        Some(YearEnc::Text("20080101120000".into())),
+        Some(YearEnc::Text("99999999999999999999999".into())),
+        Some(YearEnc::Text("0002008".into())),
         Some(YearEnc::Binary(0)),
         Some(YearEnc::Binary(2024)),
         Some(YearEnc::Binary(u32::MAX)),
@@ -407,7 +412,7 @@ pub fn run(tier: Tier, seed: u64) -> i32 {
     ev.set("distinct_nontrivial", json!(l.nontrivial));
     ev.set("rule", json!("one case = one reference-encoded movie whose user data carries an item list built from (subset of the four items x payload per item x item order x unrelated items at given positions x handler x meta form x placement x delivery); the four accessors are compared with the encoded values; non-trivial = at least one item present, handler mdir, all four answers agreed"));
     ev.set("exhaustive", json!(true));
-    ev.set("enumeration", json!({"tag_sets": n_tags, "title_payloads": "absent + lengths 0,1,4,5,300,70000 (valid UTF-8 incl. 2-,3-,4-byte characters) + 6 edge texts (NUL / blank / newline / BOM at either end)", "year": "absent + text 0,7,2024,4294967295 + binary 0,2024,2^32-1",
+    ev.set("enumeration", json!({"tag_sets": n_tags, "title_payloads": "absent + lengths 0,1,4,5,300,70000 (valid UTF-8 incl. 2-,3-,4-byte characters) + 6 edge texts (NUL / blank / newline / BOM at either end)", "year": "absent + text 0,7,2024,4294967295, 0002008 and three decimal texts beyond 32 bits (no year) + binary 0,2024,2^32-1",
         "poster": "absent + 0,1,300,70000 bytes (type 13)", "summary": "absent + 0,5,300 bytes + the 6 edge texts", "deliveries": ["non-fragmented file", "fragmented, one stream", "fragmented, reader derived by read_fragment_header from the init segment's reader"], "orders": orders.len(), "extra_item_sets": extra_sets.len(), "handlers": ["mdir", "mdta", "0000"], "meta_forms": ["FullBox", "QuickTime (no version word)"],
         "placements": ["udta/meta", "no udta", "udta without meta", "meta directly in moov"],
         "header_forms": "every box of the user-data subtree in turn with the 64-bit size header", "non_itunes_lists": "under handlers mdta/zero: title item without data box, poster with type 14, child bytes that are not boxes"}));
